@@ -127,6 +127,8 @@ def query(db, q):
             r = repr(Scalar(2.0, q[2], q[1]) * Scalar(3.0, q[3]) ** q[4])
         elif k == "DivPow":
             r = repr(Scalar(2.0, q[2], q[1]) / Scalar(3.0, q[3]) ** q[4])
+        elif k == "MulRecipPow":
+            r = repr(Scalar(2.0, q[2], q[1]) * (1.0 / Scalar(3.0, q[3]) ** q[4]))
         elif k == "ArrayMulPow":
             r = repr(Array(numpy.array([2.0, 4.0]), q[2], q[1]) * (Array([3.0, 5.0], q[3]) * Array((1.0, 2.0), q[3])))
         elif k == "IsValid":
@@ -292,7 +294,7 @@ def seq_strategy(base_kind, max_len):
             st.tuples(st.sampled_from(["Convert", "ConvertList"]), st.one_of(t, c), u, u),
             st.tuples(st.sampled_from(["GetValue", "Add", "Multiply", "CreateCopy"]), c, u, u),
             st.tuples(st.sampled_from(["IsValid", "CheckValueForCategory"]), c, u, x),
-            st.tuples(st.sampled_from(["AddPow", "MulPow", "DivPow", "ArrayMulPow"]), c, u, u, st.sampled_from([2, 3, 2])),
+            st.tuples(st.sampled_from(["AddPow", "MulPow", "DivPow", "MulRecipPow", "ArrayMulPow"]), c, u, u, st.sampled_from([2, 3, 2])),
             st.just(("GetQuantityTypes",)),
             st.just(("GetUnitsAll",)),
         ).map(list)
@@ -332,7 +334,7 @@ def seq_strategy(base_kind, max_len):
             if draw(st.booleans()):
                 e1, e2 = draw(st.sampled_from([(2, 3), (3, 2), (2, 2)]))
                 k1, k2 = draw(st.sampled_from(["AddPow", "MulPow", "DivPow"])), draw(st.sampled_from(["AddPow", "MulPow", "DivPow"]))
-                ask += [["query", [k1, c0, "m", "km", e1]], ["query", [k2, c0, "m", "km", e2]], ["query", [k2, c0, "km", "m", e1]]]
+                ask += [["query", [k1, c0, "m", "km", e1]], ["query", [k2, c0, "m", "km", e2]], ["query", [k2, c0, "km", "m", e1]], ["query", ["MulRecipPow", c0, "km", "m", e1]], ["query", ["MulRecipPow", c0, "m", "km", e2]]]
             noise1 = draw(st.lists(op, max_size=3))
             noise2 = draw(st.lists(op, max_size=3))
             pre = [["reg", copy.deepcopy(r)] for r in prefix_pool]
